@@ -633,3 +633,13 @@ func vNthSiblingIndex() (int, []string) {
 //@   nopanic
 //@   requires n != nil
 //@   ensures result == (n.Type == html.ElementNode && (n.Data == "input" || n.Data == "select" || n.Data == "textarea" || n.Data == "button"))
+
+// :only-child / :only-of-type (Selectors 4 §14.3): the siblings counted are the element children of the
+// parent — of the same element NAME for the of-type variant (names, not the atom table: unknown and
+// custom elements have distinct types too)
+//@ func (onlyChildPseudoClassSelector).Match
+//@   props C05
+//@   nopanic
+//@   requires n != nil
+//@   modifies nothing
+//@   loop 1 step[counts-same-name-elements] count == old(count) + ite(old(c.Type) == html.ElementNode && (!s.ofType || old(c.Data) == n.Data), 1, 0)
